@@ -78,8 +78,11 @@ var indexedTables = map[string]bool{"nodes": true, "services": true, "checks": t
 
 func Run(c *ev.Ctx) {
 	quick := c.Quick()
-	n1 := cmdlib.NodeSpec{Node: "n1"}
-	n1addr := cmdlib.NodeSpec{Node: "n1", Addr: "10.0.0.9"}
+	n1 := cmdlib.NodeSpec{Node: "n1", ID: "id1"}
+	n1other := cmdlib.NodeSpec{Node: "n1", ID: "id2", Addr: "10.0.0.5"} // same name, different ID: rejected while n1 is healthy
+	serf := cmdlib.CheckSpec{ID: "serfHealth", Status: api.HealthPassing}
+	sessCk := cmdlib.CheckSpec{ID: "sessck", Status: api.HealthPassing, Type: "session", SessName: "lockname"}
+	n1addr := cmdlib.NodeSpec{Node: "n1", ID: "id1", Addr: "10.0.0.9"}
 	n2 := cmdlib.NodeSpec{Node: "n2"}
 	n3 := cmdlib.NodeSpec{Node: "n3"}
 	web := cmdlib.SvcSpec{Name: "web", Port: 80}
@@ -89,7 +92,7 @@ func Run(c *ev.Ctx) {
 	c1crit := cmdlib.CheckSpec{ID: "c1", Status: api.HealthCritical}
 	sc1 := cmdlib.CheckSpec{ID: "sc1", Status: api.HealthPassing, ServiceID: "web"}
 	s1 := cmdlib.SessionSpec{Name: "s1", Node: "n1", Behavior: structs.SessionKeysRelease, NodeChecks: []string{"c1"}}
-	s2 := cmdlib.SessionSpec{Name: "s2", Node: "n1", Behavior: structs.SessionKeysDelete}
+	s2 := cmdlib.SessionSpec{Name: "s2", Node: "n1", Behavior: structs.SessionKeysDelete, SessName: "lockname"}
 
 	var parts []part
 	kv := func(verb api.KVOp, key, val, sess string, ic cmdlib.IdxClass, useIdx bool) {
@@ -129,6 +132,8 @@ func Run(c *ev.Ctx) {
 	parts = append(parts,
 		part{tp: cmdlib.TxnNode(api.NodeSet, n2, 0), equiv: eq(cmdlib.RegNode(n2))},
 		part{tp: cmdlib.TxnNode(api.NodeSet, n1addr, 0), equiv: eq(cmdlib.RegNode(n1addr))},
+		part{tp: cmdlib.TxnNode(api.NodeSet, n1other, 0), equiv: eq(cmdlib.RegNode(n1other))},
+		part{tp: cmdlib.TxnSessionDelete("s2"), equiv: eq(cmdlib.SessionDestroy("s2"))},
 		part{tp: cmdlib.TxnNode(api.NodeCAS, n1addr, cmdlib.IdxCurrent)},
 		part{tp: cmdlib.TxnNode(api.NodeCAS, n1addr, cmdlib.IdxStale)},
 		part{tp: cmdlib.TxnNode(api.NodeDelete, n1, 0), equiv: eq(cmdlib.DeregNode("n1", ""))},
@@ -157,7 +162,7 @@ func Run(c *ev.Ctx) {
 		cmdlib.RegNode(n2), cmdlib.RegService(n1, web), cmdlib.RegService(n1, db), cmdlib.RegCheck(n1, c1), cmdlib.RegCheck(n1, sc1), cmdlib.RegCheck(n1, c1crit),
 		s1.Create(), s2.Create(), cmdlib.SessionDestroy("s1"), cmdlib.DeregNode("n1", ""), cmdlib.DeregService("n1", "web", ""),
 	}
-	seed1 := []world.Op{cmdlib.RegNode(n1), cmdlib.RegService(n1, web), cmdlib.RegCheck(n1, c1), cmdlib.RegCheck(n1, sc1), s1.Create(), s2.Create(),
+	seed1 := []world.Op{cmdlib.RegNode(n1), cmdlib.RegCheck(n1, serf), cmdlib.RegService(n1, web), cmdlib.RegCheck(n1, c1), cmdlib.RegCheck(n1, sc1), cmdlib.RegCheck(n1, sessCk), s1.Create(), s2.Create(),
 		cmdlib.KVSpec{Verb: api.KVLock, Key: "a", Val: "x", Sess: "s1"}.Op(), cmdlib.KVSpec{Verb: api.KVLock, Key: "a/b", Val: "y", Sess: "s2"}.Op()}
 	seeds := [][]world.Op{nil, {cmdlib.RegNode(n1)}, seed1}
 	d1 := 1
@@ -187,7 +192,18 @@ func Run(c *ev.Ctx) {
 	}
 	if !quick {
 		// length 3 over a focused subset: every verb class once, failing and succeeding variants
-		focus := []int{0, 2, 3, 5, 8, 9, 13, 16, 20, 23, 25, 31, 33, 35, 38}
+		var focus []int
+		seenKind := map[string]bool{}
+		for i, p := range parts {
+			k := p.tp.Kind
+			if strings.Contains(p.tp.Name, "idx=stale") || strings.Contains(p.tp.Name, "zz") {
+				k += "/failing"
+			}
+			if !seenKind[k] && len(focus) < 16 {
+				seenKind[k] = true
+				focus = append(focus, i)
+			}
+		}
 		for _, i := range focus {
 			for _, j := range focus {
 				for _, k := range focus {
@@ -243,52 +259,30 @@ func Run(c *ev.Ctx) {
 					continue
 				}
 				old := map[string]bool{}
+				oldIdx := map[uint64]bool{}
 				for _, r := range p.dump[tab] {
 					old[r] = true
+					for _, m := range idxRe.FindAllStringSubmatch(r, -1) {
+						v, _ := strconv.ParseUint(m[2], 10, 64)
+						oldIdx[v] = true
+					}
 				}
 				for _, r := range rows {
 					if old[r] {
 						continue
 					}
-					ms := idxRe.FindAllStringSubmatch(r, -1)
-					if len(ms) == 0 {
-						continue
-					}
-					okIdx := false
-					for _, m := range ms {
-						if v, _ := strconv.ParseUint(m[2], 10, 64); v == idx {
-							okIdx = true
+					// a changed row carries this entry's index, or an index the table already held
+					// (cascades that deliberately preserve a row's own ModifyIndex); never a new foreign one
+					for _, m := range idxRe.FindAllStringSubmatch(r, -1) {
+						if v, _ := strconv.ParseUint(m[2], 10, 64); v != idx && !oldIdx[v] {
+							t.Violate("C05:changed-row-wrong-index:table="+tab+":"+t.Op.Kind, fmt.Sprintf("row changed by the transaction at index %d carries index %d: %s", idx, v, dump.Compress(r)))
 						}
 					}
-					if !okIdx {
-						t.Violate("C05:changed-row-wrong-index:table="+tab+":"+t.Op.Kind, fmt.Sprintf("row changed by the transaction at index %d does not carry it: %s", idx, dump.Compress(r)))
-					}
 				}
 			}
-			// differential: same ops as stand-alone commands, in order, on a fresh replay of the pre-state
-			var eqv []world.Op
-			for _, i := range l.idx {
-				if parts[i].noop {
-					continue
-				}
-				if parts[i].equiv == nil {
-					return
-				}
-				eqv = append(eqv, *parts[i].equiv)
-			}
-			ref := p.clone()
-			for _, o := range eqv {
-				if _, ok := ref.Apply(o); !ok {
-					return
-				}
-			}
-			a, b := t.W.Dump(masked), ref.Dump(masked)
-			a["usage"], b["usage"] = nonZeroUsage(a["usage"]), nonZeroUsage(b["usage"])
-			delete(a, "index") // per-table index rows are compared by C06; masked values only
-			delete(b, "index")
-			if tabs := world.DiffTables(a, b); len(tabs) > 0 {
-				t.Violate(fmt.Sprintf("C05:not-equal-to-sequential:tables=%v:%s", tabs, t.Op.Kind),
-					"transaction result differs from applying the same operations one by one:\n"+world.Diff(b, a, 8))
+			// differential: same ops as stand-alone commands, in order, on a clone of the pre-state
+			if tabs, why := differential(p.clone(), t.W, l.idx, parts, masked); why != "" {
+				t.Violate(fmt.Sprintf("C05:%s:tables=%v:%s", why, tabs, t.Op.Kind), differentialMsg)
 			}
 		}
 	}
@@ -393,4 +387,47 @@ func nonZeroUsage(rows []string) []string {
 		}
 	}
 	return out
+}
+
+var differentialMsg = "transaction outcome differs from applying the same operations one by one"
+
+func failedResult(r string) bool { return r == "false" || strings.HasPrefix(r, "err:") || strings.HasPrefix(r, "PANIC") }
+
+func allHaveEquiv(idx []int, parts []part) bool {
+	for _, i := range idx {
+		if parts[i].equiv == nil {
+			return false
+		}
+	}
+	return true
+}
+
+// differential applies the stand-alone equivalents to ref (a clone of the pre-state) and compares
+// with the post-transaction world w. Only called for transactions that reported success.
+func differential(ref, w *world.World, idx []int, parts []part, masked *dump.Options) ([]string, string) {
+	for _, i := range idx {
+		if parts[i].noop {
+			continue
+		}
+		if parts[i].equiv == nil {
+			return nil, ""
+		}
+		r, ok := ref.Apply(*parts[i].equiv)
+		if !ok {
+			return nil, ""
+		}
+		if failedResult(r) {
+			differentialMsg = "transaction reported success although operation " + parts[i].tp.Name + " fails when applied alone (" + r + ")"
+			return nil, "succeeded-but-op-fails-alone:" + parts[i].tp.Kind
+		}
+	}
+	a, b := w.Dump(masked), ref.Dump(masked)
+	a["usage"], b["usage"] = nonZeroUsage(a["usage"]), nonZeroUsage(b["usage"])
+	delete(a, "index") // per-table index rows are compared by C06; masked values only
+	delete(b, "index")
+	if tabs := world.DiffTables(a, b); len(tabs) > 0 {
+		differentialMsg = "transaction result differs from applying the same operations one by one:\n" + world.Diff(b, a, 8)
+		return tabs, "not-equal-to-sequential"
+	}
+	return nil, ""
 }
